@@ -18,7 +18,11 @@ CONSTANTS ThreshC, ThreshS, \* packets after which the client / server starts a 
           RepeatC, RepeatS, \* does the client / server repeat the kex-strict marker in the KEXINITs of
                             \* re-exchanges?  (asyncssh and OpenSSH do; the extension says the marker
                             \* "MUST be ignored if present in subsequent KEXINIT", so a peer may omit it)
-          RelatchStrict     \* TRUE: sensitivity variant (strict mode re-decided at every KEXINIT)
+          RelatchStrict,    \* TRUE: sensitivity variant (strict mode re-decided at every KEXINIT)
+          Timer,            \* the sides that also re-key by time (rekey_seconds): a subset of Sides
+          MaxTicks,         \* bound on time-limit expiries (for finiteness)
+          TimerIgnoresKex   \* TRUE: sensitivity variant (the time trigger does not ask whether an
+                            \*       exchange is already running)
 
 Sides == {"c", "s"}
 Other(x) == IF x = "c" THEN "s" ELSE "c"
@@ -47,6 +51,9 @@ InitState(thc, ths, asz) ==
              re |-> [x \in Sides |-> 1],         \* ... for receiving
              staged |-> [x \in Sides |-> FALSE], \* next receive keys staged
              cnt |-> [x \in Sides |-> 0],        \* packets sent since the last KEXINIT (rekey_bytes_sent)
+             due |-> [x \in Sides |-> FALSE],    \* time.monotonic() >= _rekey_time (rekey_seconds passed
+                                                 \* since this side's last KEXINIT)
+             nticks |-> 0,
              deferred |-> [x \in Sides |-> <<>>],
              napp |-> [x \in Sides |-> 0],
              net |-> [x \in Sides |-> <<>>],     \* written by x: [t, id, ep]
@@ -72,11 +79,15 @@ Emit(st, x, kinds) ==
 
 \* _send_kexinit
 SendKexinit(st, x) ==
-    Emit([st EXCEPT !.kc[x] = FALSE, !.cnt[x] = 0, !.nkex = @ + 1], x, <<<<"KEXINIT", 0>>>>)
+    Emit([st EXCEPT !.kc[x] = FALSE, !.cnt[x] = 0, !.due[x] = FALSE, !.nkex = @ + 1], x,
+         <<<<"KEXINIT", 0>>>>)
 
 \* send_packet for one application packet: re-key trigger, then send or defer
 SendApp(st, x, id) ==
-    LET trig == st.kc[x] /\ st.th[x] > 0 /\ st.cnt[x] >= st.th[x] /\ st.nkex < MaxKex
+    LET bytes == st.th[x] > 0 /\ st.cnt[x] >= st.th[x]
+        trig == /\ st.nkex < MaxKex
+                /\ IF TimerIgnoresKex THEN (st.kc[x] /\ bytes) \/ st.due[x]
+                   ELSE st.kc[x] /\ (bytes \/ st.due[x])
         s1 == IF trig THEN [SendKexinit(st, x) EXCEPT !.ks[x] = TRUE] ELSE st
     IN IF s1.kc[x]
        THEN [Emit(s1, x, <<<<"APP", id>>>>) EXCEPT !.cnt[x] = @ + st.asz]
@@ -135,7 +146,14 @@ Recv(x) ==
              ELSE bad
        IN Step(new, <<"recv", x, m.t, m.id>>)
 
-Next == \E x \in Sides : AppSend(x) \/ Recv(x)
+\* rekey_seconds pass: every side that re-keys by time is due (the trigger itself is looked at
+\* by the next send_packet of that side)
+Tick ==
+    /\ ~s.err /\ Timer # {} /\ s.nticks < MaxTicks
+    /\ \E x \in Timer : ~s.due[x]
+    /\ Step([s EXCEPT !.due = [x \in Sides |-> @[x] \/ x \in Timer], !.nticks = @ + 1], <<"tick">>)
+
+Next == Tick \/ \E x \in Sides : AppSend(x) \/ Recv(x)
 Spec == Init /\ [][Next]_vars
 LiveSpec == Spec /\ \A x \in Sides : WF_vars(Recv(x)) /\ WF_vars(AppSend(x))
 
